@@ -82,6 +82,7 @@ class World:
         self.contracts = {}
         self.specs = {}
         self.lemmas = {}
+        self.analyses = {}  # name -> (callable(world) -> FunctionReport, props)
         self.modules = {}  # path -> (ast.Module, source)
         self.fn_index = {}  # key -> RealFn
         self.loop_index = {}  # id(loop node) -> ordinal in source order within its top-level function
@@ -91,6 +92,7 @@ class World:
         self.records = {}
         self.ufns = {}
         self.global_overrides = {}
+        self.clause_globals = {}  # extra names visible in contract clauses
         self.sink_handler = None
         self.truthy_fn = z3.Function("truthy", VAL_SORT, z3.BoolSort())
         self.pow_fn = z3.Function("pow", z3.IntSort(), z3.IntSort(), z3.IntSort())
@@ -124,6 +126,9 @@ class World:
 
         self.lemmas[name] = Lemma(name, **kw)
         return self.lemmas[name]
+
+    def analysis(self, name, fn, props):
+        self.analyses[name] = (fn, list(props))
 
     def used_assumption(self, text):
         if text not in self.assumptions:
@@ -217,6 +222,8 @@ class World:
             return self.wrap_global(globs[name], name)
         if name in self.BUILTINS:
             return Builtin(name)
+        if name in self.clause_globals:
+            return self.wrap_global(self.clause_globals[name], name)
         import builtins
 
         if hasattr(builtins, name):
